@@ -282,10 +282,19 @@ def run_grad(ctx, i, rng):
         y = jnp.tanh(y @ bb['w'] + bb['b']) * bb['gain'] - 0.1 * bb['stat']
       return jnp.sum(y ** 2), jnp.mean(y)
 
-    argnums = 0 if wrt is None else nnx.DiffState(0, wrt)
+    # the module is argument 0 of (m, x) / (m, x, m2): the same position written as a negative index must select the same state
+    neg = rng.random() < 0.25
+    pos0 = 0 if not neg else (-3 if two_args else -2)
+    desc['argnum_of_module'] = pos0
+    argnums = pos0 if wrt is None else nnx.DiffState(pos0, wrt)
+    swapped = two_args and rng.random() < 0.5   # argnums listed in descending position order: results follow the ORDER GIVEN
+    desc['argnums_order'] = 'descending' if swapped else 'ascending'
     if two_args:
-      argnums = (argnums, 2 if wrt is None else nnx.DiffState(2, wrt))
-    tf = (nnx.value_and_grad if vag else nnx.grad)(loss, argnums=argnums, has_aux=has_aux)
+      second = 2 if wrt is None else nnx.DiffState(2, wrt)
+      argnums = (second, argnums) if swapped else (argnums, second)
+    # no default arguments in the differentiated signature: a negative argnum counts from the end of the arguments actually there
+    loss_fn = loss if two_args else (lambda m, x: loss(m, x))
+    tf = (nnx.value_and_grad if vag else nnx.grad)(loss_fn, argnums=argnums, has_aux=has_aux)
     out = tf(model, jnp.asarray(x), model2) if two_args else tf(model, jnp.asarray(x))
     ctx.op('nnx.value_and_grad' if vag else 'nnx.grad')
     sel = {k: jnp.asarray(a[k]) for k in selected}
@@ -302,6 +311,8 @@ def run_grad(ctx, i, rng):
         grads, aux = grads
     if has_aux:
       ctx.check(np.allclose(float(aux['mean']), float(aux_r), **TOL), 'grad:aux', lambda: dict(case=desc))
+    if swapped:
+      grads = (grads[1], grads[0])   # back to (model, model2) order for the comparisons below
     g1 = grads[0] if two_args else grads
     def flat(gs):
       return {p[0]: np.asarray(v.value if hasattr(v, 'value') else v) for p, v in nnx.to_flat_state(gs)}
